@@ -46,6 +46,10 @@ CHECKS["C15"] = ("exploration",
    "Producer, the library's forwarding goroutine, per-event executor goroutines, consumer (prompt / slow / stops after j) and the cancellation action are interleaved by the seeded scheduler over 0-5 events (ok, nullable failure, non-null failure) and subscribe-phase faults (syntax, validation, unknown operation, Subscribe returning error / nil / a plain value / a closed stream / panicking with error, string, int); the recorded history must show results in source order, each equal to the solo execution of its event (or the context error after cancellation), one result per event without cancellation, closure after source close / cancellation / failure, and - after cancellation and quiescence - no goroutine of the subscription still blocked (read off the bubble's goroutine dump).",
    "Trusted: testing/synctest quiescence detection and goroutine dump, the seeded scheduler. The library's two-ready selects are kept single-ready in the default mode (cancellation is not placed while the producer is mid-send or a result is pending at a blocked consumer; a consumer polls after cancellation); the both-ready mode (10% of runs) lifts this and accepts either legal branch.",
    "seeded interleaving of producer / forwarder / executors / consumer / canceller with leak detection at quiescence", "§5 C15")
+CHECKS["C07"] = ("exploration",
+   "2-4 client tasks share one cold schema value, prepared plans and one plan cache (size 1-3, Normalize on/off) and issue Do / Get+ExecutePlan / ExecutePlan on a shared plan / ValidateDocument / Reset; the seeded scheduler interleaves them at client steps, every instrumented callback and the library's verif yield hooks (before each lock, the executor start and result send). Oracles: Go race detector on a -race build with every simulator hand-off hidden from it (runtime.RaceDisable), so that only the library's own synchronisation orders accesses and a race becomes a deterministic function of the chosen schedule; no panic; no deadlock / all clients finish; each response byte-equal to the same request run alone on a separately built cold schema; cache entry bound at every step.",
+   "Trusted: runtime.RaceDisable hiding of scheduler hand-offs (a harness-only race is reported as infrastructure error, exit 2), the happens-before race detector (reports races between accesses that actually occur in the explored schedules), go1.26.8 testing/synctest. Package-level lazily initialised state is cold only in the first run of each worker process.",
+   "seeded interleaving search with the race detector as oracle (simulator synchronisation hidden from it)", "§5 C07, §2.4")
 REASONS_PENDING = "claimed in DESIGN.md; the check is still under construction and is therefore not registered yet"
 ALL = ["C%02d" % i for i in range(1, 21)]
 hooks_commit = "0e04175"
